@@ -374,6 +374,11 @@ func (rl *realLog) load(dir string) error {
 		rl.FileSize = append(rl.FileSize, len(b))
 		rl.FileName = append(rl.FileName, nm)
 	}
+	return rl.parse()
+}
+
+// parse splits the stream into records (and, where known, checks them against what was written).
+func (rl *realLog) parse() error {
 	rl.RecStart, rl.Payload, rl.Times = []int{0}, nil, nil
 	rl.byLoad = map[string]int{}
 	p := 0
@@ -394,14 +399,16 @@ func (rl *realLog) load(dir string) error {
 			return fmt.Errorf("undamaged log: record %d does not decode: %v", len(rl.Payload), err)
 		}
 		i := len(rl.Payload)
-		if i >= len(rl.Written) {
-			return fmt.Errorf("more records on disk than written")
-		}
-		if got := cs.VerifWALDescribe(tm.Msg); got != rl.Written[i] {
-			return fmt.Errorf("record %d on disk is %q, written %q", i, trunc(got, 120), trunc(rl.Written[i], 120))
+		if rl.Written != nil { // (not known when a recorded log is replayed)
+			if i >= len(rl.Written) {
+				return fmt.Errorf("more records on disk than written")
+			}
+			if got := cs.VerifWALDescribe(tm.Msg); got != rl.Written[i] {
+				return fmt.Errorf("record %d on disk is %q, written %q", i, trunc(got, 120), trunc(rl.Written[i], 120))
+			}
 		}
 		if re := ser.MustEncodeToBytes(&tm); !bytes.Equal(re, pay) {
-			return fmt.Errorf("record %d (%s) does not re-encode to its payload", i, rl.Kind[i])
+			return fmt.Errorf("record %d does not re-encode to its payload", i)
 		}
 		rl.byLoad[string(pay)] = i
 		rl.Payload = append(rl.Payload, pay)
